@@ -288,12 +288,19 @@ def build_classes(rec, spec_mods, T):
 
         dp_script = [tuple(x) for x in spec.get('doPoll', [[0, 'ok']])]
         dp_reads = list(spec.get('doPollReads', []))
+        dp_acts = {}
+        for kk, act in spec.get('doPollActs', []):
+            dp_acts.setdefault(kk, []).append(act)
 
-        def doPoll(self, _s=dp_script, _r=dp_reads, mi=mi):
+        def doPoll(self, _s=dp_script, _r=dp_reads, mi=mi, _acts=dp_acts):
             k, d, o = _script_next(rec, (mi, 'doPoll'), _s)
             rec.depth += 1
             try:
                 rec.handoff()
+                # driver code switching fast polling / triggering from inside its own doPoll, i.e. from the poll
+                # thread itself (as HasStates.cycle_machine does)
+                for act in _acts.get(k, []):
+                    rec.do_action(dict(act, m=mi))
                 for pn in _r:
                     getattr(self, 'read_' + pn)()
                 if d:
@@ -664,6 +671,8 @@ def impl_run(case):
             if batch is not None:
                 batch['set'] = ev.is_set()
 
+        rec.do_action = do_action
+
         def intruder():
             # acts at chosen event operations (wait / clear) of the poll thread, at their entry: between the computation
             # of the wait time and the wait, and between the return of the wait and the clear
@@ -850,6 +859,15 @@ def gen_case(rng, big, T):
             spec['written'] = True
         elif rng.random() < 0.25:
             spec['written'] = True
+        if base == 'readable' and rng.random() < 0.2:
+            # the module's own doPoll switches fast polling / changes its interval / triggers at its k-th invocation
+            acts = []
+            for _ in range(rng.choice([1, 2, 3])):
+                a = gen_command(rng, [spec], 0, 0) if rng.random() < 0.8 else {'op': 'trig', 'imm': rng.random() < 0.5}
+                a.pop('at', None)
+                a.pop('m', None)
+                acts.append([rng.randrange(1, 40), a])
+            spec['doPollActs'] = sorted(acts, key=lambda x: x[0])
         if spec.get('written'):
             # the start-up write may take time and may fail in every way a read can
             spec['wscript'] = [rng.choice([0, 0, 16, 256]), rng.choice(['ok', 'ok', 'ok'] + OUTCOMES[1:])]
@@ -989,8 +1007,9 @@ def zero_interval(case):
     """does any module ever run with interval 0 (the loop then never waits: one turn per few ticks)"""
     if any(m['base'] == 'io' and m['pollinterval'] == 0 and m.get('enabled', True) for m in case['mods']):
         return True
+    own = [a for m in case['mods'] for _, a in m.get('doPollActs', [])]
     return any(a['op'] in ('fast', 'pi') and a['v'] == 0 and a.get('flag', True)
-               for a in case.get('actions', []) + case.get('wactions', []))
+               for a in case.get('actions', []) + case.get('wactions', []) + own)
 
 
 def cheap_turn(case):
@@ -1182,6 +1201,8 @@ def run(ctx):
         res.count('interval0' if zero_interval(case) else 'interval>0')
         res.count('failing-calls=%s' % ('0' if not fails else '1-9' if fails < 10 else '10+'))
         res.count('startup-abort' if model.get('aborted') else 'startup-complete')
+        if any(m.get('doPollActs') for m in case['mods']):
+            res.count('commands-from-own-doPoll')
         for m in case['mods']:
             if m.get('written'):
                 res.count('startup-write.' + m.get('wscript', [0, 'ok'])[1])
